@@ -164,6 +164,8 @@ func reviveGo(x interface{}) interface{} {
 			orderedMu.Unlock()
 			orderOf.Store(reflect.ValueOf(m).Pointer(), sh)
 			return m
+		case "nilslice":
+			return []string(nil) // an unset []T field or map value: an empty list in the template, a fresh one for every render
 		case "nan":
 			return math.NaN()
 		case "inf":
